@@ -28,6 +28,19 @@ def _enc():
             Pth.received_direction.fget, Pth.coordinates.fget]
 
 
+def _lmods():
+    import pyrex.custom.layered_ice.ray_tracing
+    import pyrex.custom.layered_ice.ice_model
+    return _mods() + [pyrex.custom.layered_ice.ray_tracing, pyrex.custom.layered_ice.ice_model]
+
+
+def _lenc():
+    import pyrex.custom.layered_ice.ray_tracing as lrt
+    T = lrt.LayeredRayTracer
+    return [T._trace_path, T._get_radial_distance, T.solutions.fget, T._potential_paths.fget,
+            T._build_path]
+
+
 LO, HI = -1000.0, 0.0
 
 
@@ -173,6 +186,109 @@ def h_uniform_range(ex):
     ex.same(len(tr.solutions) > 0, bool(e), 'exists<=>solutions-non-empty')
 
 
+def _layered(ex, stack):
+    from pyrex.ice_model import UniformIce, AntarcticIce
+    from pyrex.custom.layered_ice import LayeredIce
+    layers = []
+    for i, (kind, lo, hi) in enumerate(stack):
+        if kind == 'u':
+            layers.append(UniformIce(ex.real('n%d' % i, 1.1, 2.0), valid_range=(lo, hi)))
+        else:
+            layers.append(AntarcticIce(valid_range=(lo, hi)))
+    return layers
+
+
+def _chains(tr):
+    """the (depths, grouped index path, layer models) triples the real `solutions` hands to
+    _trace_path, recorded by letting every trial trace fail (nan)"""
+    rec = []
+
+    def fake(angle, depths, grouped, models):
+        key = (tuple(float(d) for d in depths), tuple(tuple(g) for g in grouped))
+        if key not in [r[0] for r in rec]:
+            rec.append((key, np.array(depths, dtype=float), [list(g) for g in grouped], list(models)))
+        return [np.nan] * len(grouped), [np.nan] * len(grouped)
+    tr.__dict__['_trace_path'] = fake
+    tr.__dict__.pop('_lazy_solutions', None)
+    tr.solutions
+    del tr.__dict__['_trace_path']
+    tr.__dict__.pop('_lazy_solutions', None)
+    return rec
+
+
+def h_layered_chain(ex):
+    """LayeredRayTracer._trace_path for a symbolic launch angle, on every index chain the
+    real `solutions` proposes for the stack: n sin(theta) (index at the depth where each
+    section starts) is the same for every section of the chain (Snell at transmissions,
+    mirror reflection otherwise, ray invariant inside graded layers); a transmission keeps
+    the vertical sense and a reflection reverses it; uniform sections advance radially by
+    tan(theta) dz >= 0; the chain is cut (nan) only where Snell has no solution or the
+    outer boundary has no medium to reflect off."""
+    import pyrex.custom.layered_ice.ray_tracing as lrt
+    from pyrex.custom.layered_ice import LayeredIce
+    from pyrex.ice_model import UniformIce
+    stack = ex.case['stack']
+    layers = _layered(ex, stack)
+    ice = LayeredIce(layers, index_above=ex.case.get('above', 1.0),
+                     index_below=ex.case.get('below', None))
+    a, b = ex.case['ends']
+    tr = lrt.LayeredRayTracer(np.array([0.0, 0.0, a]), np.array([ex.case.get('rho', 50.0), 0.0, b]), ice)
+    tr.max_reflections = ex.case.get('kmax', 1)
+    rec = _chains(tr)
+    rec = [r for r in rec if r[1][1] != r[1][0]]
+    ex.same(len(rec) > 0, True, 'chains-proposed')
+    _, depths, grouped, models = rec[ex.choice(len(rec), 'chain')]
+    ex.note('chain=%s' % (grouped,))
+    up = depths[1] > depths[0]
+    ang = ex.real('angle', 0.02, math.pi / 2 - 0.02) if up else \
+        ex.real('angle', math.pi / 2 + 0.02, math.pi - 0.02)
+    stub = []
+    orig_grd = tr._get_radial_distance
+
+    def grd(angle, ice_layer, zs):
+        if isinstance(ice_layer, UniformIce):
+            return orig_grd(angle=angle, ice_layer=ice_layer, zs=zs)
+        # graded layer: the closed-form radial distance is the subject of C01; here an
+        # arbitrary non-negative value
+        v = ex.real('r_graded_%d' % len(stub), 0.0, 1e4)
+        stub.append(v)
+        return v
+    tr.__dict__['_get_radial_distance'] = grd
+    drs, angles = tr._trace_path(ang, depths, grouped, models)
+    ex.same(len(angles), len(grouped), 'one-angle-per-section')
+    isnan = lambda x: isinstance(x, float) and math.isnan(x)
+    starts = np.cumsum([0] + [len(g) for g in grouped])
+    beta0 = models[0].index(depths[0]) * np.sin(angles[0])
+    ex.close(angles[0], ang, 'first-section-launched-at-the-launch-angle', tol=0.0)
+    # a chain with an undefined (nan) section is never returned as a solution (its total
+    # radial distance is nan): the radial claims are made for whole chains
+    whole = not any(isnan(d) for d in drs)
+    ex.note('whole' if whole else 'cut-chain')
+    for i in range(len(grouped)):
+        if isnan(angles[i]):
+            ex.note('cut')
+            continue
+        tag = ':sec%d' % i
+        n_i = models[i].index(depths[starts[i]])
+        want = beta0 if ex.twin != 'no-snell' or i == 0 else beta0 * 1.05
+        ex.close(n_i * np.sin(angles[i]), want, 'n-sin(theta)-invariant-along-the-chain' + tag,
+                 tol=1e-9)
+        if isinstance(models[i], UniformIce) and len(grouped[i]) == 1 and whole:
+            dz = depths[starts[i] + 1] - depths[starts[i]]
+            ex.close(drs[i] * np.cos(angles[i]), np.sin(angles[i]) * dz,
+                     'uniform-section-advances-tan(theta)dz' + tag, tol=1e-9)
+            ex.le(0.0, drs[i], 'radial-advance-non-negative' + tag, tol=1e-9)
+        if i + 1 < len(grouped) and not isnan(angles[i + 1]):
+            c0, c1 = np.cos(angles[i]), np.cos(angles[i + 1])
+            transmitted = grouped[i][-1] != grouped[i + 1][0]
+            flips = (len(grouped[i]) == 2) != (not transmitted)
+            if flips:
+                ex.le(c0 * c1, 0.0, 'vertical-sense-reversed' + tag, tol=1e-12)
+            else:
+                ex.le(0.0, c0 * c1, 'vertical-sense-kept' + tag, tol=1e-12)
+    ex.note('sections=%d' % len(grouped))
+
+
 def h_layer_paths(ex):
     """every index path proposed by the layered tracer starts in the source layer, ends in
     the receiver layer, moves by at most one layer per step and repeats a layer (= reflects)
@@ -202,6 +318,29 @@ HARNESSES = [
     Harness('unfold-lemma', h_unfold_lemma, _mods, encodes=_enc, twins=('square',),
             budget={'quick': {'query_timeout_ms': 90000, 'wall_s': 300}}),
     Harness('uniform-range', h_uniform_range, _mods, encodes=_enc, twins=('open',)),
+    Harness('layered-chain', h_layered_chain, _lmods, encodes=_lenc, twins=('no-snell',),
+            cases={'quick': [
+                {'stack': [('u', -100.0, 0.0), ('u', -300.0, -100.0), ('u', -1000.0, -300.0)],
+                 'ends': (-400.0, -50.0), 'kmax': 1, '_twins': 1},
+                {'stack': [('a', -100.0, 0.0), ('a', -2850.0, -100.0)], 'ends': (-200.0, -40.0),
+                 'kmax': 1},
+                {'stack': [('a', -100.0, 0.0), ('u', -2850.0, -100.0)], 'ends': (-30.0, -60.0),
+                 'kmax': 1},
+                {'stack': [('a', -100.0, 0.0), ('a', -2850.0, -100.0)], 'ends': (-40.0, -200.0),
+                 'kmax': 1}],
+                'thorough': [
+                {'stack': [('u', -100.0, 0.0), ('u', -300.0, -100.0), ('u', -1000.0, -300.0)],
+                 'ends': e, 'kmax': k, 'below': bl}
+                for e in ((-400.0, -50.0), (-50.0, -400.0), (-150.0, -200.0))
+                for k in (0, 1, 2) for bl in (None, 1.0)] + [
+                {'stack': [('a', -100.0, 0.0), ('a', -2850.0, -100.0)], 'ends': e, 'kmax': 1}
+                for e in ((-200.0, -40.0), (-40.0, -200.0), (-30.0, -60.0))] + [
+                {'stack': [('a', -100.0, 0.0), ('u', -2850.0, -100.0)], 'ends': (-30.0, -60.0),
+                 'kmax': 2}] + [
+                {'stack': [('u', -50.0, 0.0), ('a', -2850.0, -50.0)], 'ends': (-200.0, -20.0),
+                 'kmax': 1}]},
+            budget={'quick': {'wall_s': 300, 'query_timeout_ms': 30000, 'max_paths': 400},
+                    'thorough': {'wall_s': 900, 'query_timeout_ms': 60000, 'max_paths': 2000}}),
 ]
 
 BOUNDS = {
@@ -211,7 +350,9 @@ BOUNDS = {
               'ice range': '[-1000,0]'},
     'thorough': {'reflections': '0..3'},
 }
-OUTSIDE = ["layered solutions (91-angle scan and nested root finding: not encodable); the "
-           "layered clauses are not claimed in this round",
+OUTSIDE = ["the layered solution search itself (91-angle scan and nested root finding) and "
+           "hence the count/identity of layered solutions and 'splitting reproduces the "
+           "unsplit medium'; radial distances inside graded layers (closed forms: C01) are "
+           "arbitrary non-negative values in the layered-chain harness",
            "endpoints exactly above one another (rho = 0)"]
 ASSUMPTIONS = ["arctan2 as a point on the unit circle"]
